@@ -533,6 +533,17 @@ def r6_no_alias(repo: Repo, rep):
         if p.ret is RAISE:
             continue
         v = p.env.get("self.defaults")
+        fn = init.params[1]
+        rewrap = any(pol and isinstance(g, ast.Call) and attr_chain(g.func) == "isinstance" and len(g.args) == 2 and dump(g.args[0]) == fn and "UserFunction" in dump(g.args[1])
+                     for g, pol, k in p.guards)
+        if rewrap:
+            # wrapping a wrapper: the stored defaults (values fixed by partial evaluation included) and the argument list are taken over
+            src_ok = v is not None and any(isinstance(x, ast.Attribute) and x.attr == "defaults" and dump(x.value) == fn for x in ast.walk(v))
+            a = p.env.get("self.args")
+            args_ok = a is not None and any(isinstance(x, ast.Attribute) and x.attr == "args" and dump(x.value) == fn for x in ast.walk(a))
+            rep.check(R, src_ok and args_ok, init.site(), init.fq, f"UserFunction({fn}) of a wrapper takes over {fn}.defaults (copied) and {fn}.args",
+                      f"self.defaults = {dump(v) if v is not None else 'not taken from the wrapper'}; self.args = {dump(a) if a is not None else 'not taken from the wrapper'}",
+                      "stored defaults of the wrapped wrapper dropped")
         if v is None:
             rep.ok(R, init.site(), init.fq, "defaults not bound on this path (delegated)", "delegated to _transform_to_user_function")
             continue
@@ -544,13 +555,58 @@ def r6_no_alias(repo: Repo, rep):
             rep.ok(R, init.site(), init.fq, "self.defaults is a copy when taken from another wrapper", f"self.defaults = {dump(v)}")
 
 
+def r8_points_dispatch(repo: Repo, rep):
+    R = rep.rule("R-C13-8", "the argument of a call is converted with `.coordinates` only when it is recognised as Points; every other mapping is used as it is", floor=2,
+                 why="a negative test (`not isinstance(args, dict)`) sends ChainMap / MappingProxyType / custom mappings down the Points branch")
+    for cname in ("UserFunction", "DomainUserFunction"):
+        ci = _cls(repo, cname)
+        fi = ci.methods.get("__call__")
+        if fi is None:
+            continue
+        rep.saw(fi)
+        an = fi.params[1]
+        conv = 0
+        for n in ast.walk(fi.node):
+            pass
+        for p in paths(fi.node):
+            if p.ret is RAISE:
+                continue
+            uses = []
+            for e in p.events:
+                if e.value is None:
+                    continue
+                for x in ast.walk(e.value):
+                    if isinstance(x, ast.Attribute) and x.attr == "coordinates" and dump(x.value) == an:
+                        uses.append((e, x))
+            if p.ret is not None:
+                for x in ast.walk(p.ret):
+                    if isinstance(x, ast.Attribute) and x.attr == "coordinates" and dump(x.value) == an:
+                        uses.append((None, x))
+            if not uses:
+                continue
+            conv += 1
+            positive = any(pol and isinstance(g, ast.Call) and attr_chain(g.func) == "isinstance" and len(g.args) == 2 and dump(g.args[0]) == an
+                           and "Points" in dump(g.args[1]) for g, pol, k in p.guards) or any(
+                pol and isinstance(g, ast.Call) and attr_chain(g.func) == "hasattr" and len(g.args) == 2 and dump(g.args[0]) == an and dump(g.args[1]) == "'coordinates'"
+                for g, pol, k in p.guards)
+            inline = any(isinstance(x, ast.IfExp) and isinstance(x.test, ast.Call) and attr_chain(x.test.func) == "isinstance" and dump(x.test.args[0]) == an and "Points" in dump(x.test.args[1])
+                         and any(y is u for y in ast.walk(x.body)) for e, u in uses for x in (ast.walk(e.value) if e is not None else ast.walk(p.ret)))
+            rep.check(R, positive or inline, fi.site(), fi.fq, f"`{an}.coordinates` only under isinstance({an}, Points)",
+                      f"guards {[(dump(g)[:40], pol) for g, pol, k in p.guards if an in dump(g)][:3]}", "conversion without a positive Points test")
+        if conv == 0:
+            rep.ok(R, fi.site(), fi.fq, "no Points conversion in this call method", "-")
+
+
 def run(repo: Repo, rep):
+    r8_points_dispatch(repo, rep)
     r1_keyword_only(repo, rep)
     r2_r3_mapping(repo, rep)
     r4_defaults_alignment(repo, rep)
     r5_copy_on_partial(repo, rep)
     r6_no_alias(repo, rep)
     r7_set_default(repo, rep)
+    from .c14 import r5_module_state  # the declared arguments and defaults of a wrapper come from its own function object, not from a module-level table
+    r5_module_state(repo, rep)
 
 
 _U = "src/torchphysics/utils/user_fun.py"
